@@ -59,7 +59,8 @@ def main():
     try:
         if hasattr(mod, 'pregen'):
             mod.pregen(ctx)
-        ok, log = C.lake_build()
+        ok, log = C.lake_build(['Props.' + pid, 'driver_' + pid.lower()] +
+                               ['driver_' + x.lower() for x in getattr(mod, 'USES_MODELS', [])])
         if not ok:
             # a failing build is a broken proof obligation only when it is caused by a table
             # regenerated from /repo; otherwise it is our own infrastructure
